@@ -438,6 +438,9 @@ func (s *ReceiveStream) handleResetStreamFrame(frame *wire.ResetStreamFrame, now
 	s.mutex.Unlock()
 
 	if completed {
+		// The read side may have been cancelled locally before a RESET_STREAM_AT with a reliable size
+		// beyond the read position arrived: nothing more will be read, return the credit now.
+		s.flowController.Abandon()
 		s.sender.onStreamCompleted(s.streamID)
 	}
 	return err
